@@ -25,6 +25,8 @@ if mods:
         'LbzVerif.Props.C03.xread_chunks',
         'LbzVerif.Props.C03.xwrite_all',
         'LbzVerif.Props.C03.output_eq_partial',
+        'LbzVerif.Props.C03.output_eq',
+        'LbzVerif.Props.C03.output_canon',
     ])
 exe = ck.build_lbzip2(asan=False)
 rng = ck.rng
